@@ -406,7 +406,6 @@ func runC16(c *Ctx) {
 	checkLocalfsDeleteOnlyKey(c, "delete.only-the-key")
 	checkGenericErrorDiscipline(c, "pkg/storage/localfs", "pkg/storage")
 	checkHasIsExistenceOnly(c, "has.existence-only")
-	checkKeysPrefixAlgorithm(c, "keysprefix.algorithm")
 }
 
 // shortCircuitProtects: in `err != nil || <uses info>` (or `err == nil && <uses info>`) the use of info is evaluated
@@ -1185,7 +1184,7 @@ func runC22(c *Ctx) {
 			return true
 		})
 		if sw == nil {
-			c.fail("walker.partition", tw.ID, p.Pos(walker.Pos()), "the walker no longer classifies markers with a switch")
+			c.shapeChanged("walker.partition", tw.ID, p.Pos(walker.Pos()), tw.ID, "the walker no longer classifies markers with a switch")
 		} else {
 			var rows []string
 			for _, st := range sw.Body.List {
@@ -1402,7 +1401,7 @@ func runC22(c *Ctx) {
 			})
 		}
 		if sw == nil {
-			c.fail("range-to-read", g.ID, p.Pos(g.Decl.Pos()), "getRangeToRead no longer classifies markers with a switch")
+			c.shapeChanged("range-to-read", g.ID, p.Pos(g.Decl.Pos()), g.ID, "getRangeToRead no longer classifies markers with a switch")
 		} else {
 			var rows []string
 			for _, st := range sw.Body.List {
